@@ -20,6 +20,9 @@ from hypothesis import strategies as st
 from . import gen_scenario
 from .gen_scenario import CLIENT_SW
 
+# steer -> share of the generated cases (parts of 32)
+STEERS = {"gated_off": 6, "nic_toggle": 6, "acl": 6, "attack": 5, "none": 5, "sizes": 4}
+
 # category weights for ['cat', c, j] ops (envdrive.resolve_action picks the j-th action of that category)
 WEIGHTED_CATS = (
     ["idle"] * 3 + ["scan"] * 2 + ["service"] * 4 + ["app"] * 4 + ["file"] * 4 + ["folder"] * 3 + ["acl"] * 4
@@ -155,10 +158,84 @@ def sessions_phrase(draw, spec: Dict) -> List[List]:
     return ops
 
 
+# ---------------------------------------------------------------------------------------------------------------------
+# extra blue actions (C09 only): ACL rules that set one of {address, wildcard mask} on a side and leave the other open.
+# gen_scenario's shared action list only has (ip, NONE) on the source side and (ip, mask) on the destination side; a
+# rule's address id and wildcard id are independent leaves, so every combination per side has to occur.
+# A case carries them as case["extra_actions"]; c09.run_case appends them to the defender's action_map (apply_extras).
+
+WC_LISTED = ("0.0.0.255", "0.0.0.1")  # both are in the generated wildcard_list
+WC_UNLISTED = "0.0.255.255"
+
+
+def acl_extra_actions(meta: Dict) -> List[Dict]:
+    hosts = meta["hosts"]
+    ip0, ipn = hosts[0]["ip"], hosts[-1]["ip"]
+    #            src_ip src_wildcard   dst_ip dst_wildcard
+    variants = [("ALL", WC_LISTED[0], "ALL", WC_LISTED[1]),   # mask without address, both sides
+                (ip0, "NONE", "ALL", WC_LISTED[0]),           # address without mask / mask without address
+                ("ALL", WC_LISTED[1], ipn, "NONE"),           # the mirror image
+                (ipn, WC_LISTED[1], ip0, WC_LISTED[0]),       # both set on both sides
+                ("ALL", WC_UNLISTED, "ALL", "NONE")]          # a mask that is not in wildcard_list -> 1
+    out: List[Dict] = []
+
+    def rule(i, v, **target):
+        return {"action": target.pop("_a"), "cat": "acl", "options": dict(
+            target, position=i, permission="PERMIT" if i % 2 == 0 else "DENY", src_ip=v[0], src_wildcard=v[1],
+            src_port="ALL", dst_ip=v[2], dst_wildcard=v[3], dst_port="ALL", protocol_name="ALL" if i % 2 == 0 else "udp")}
+
+    for r in meta["routers"]:
+        for k, v in enumerate(variants):
+            out.append(rule(k % 3, v, _a="router-acl-add-rule", target_router=r))
+        for pos in (0, 2):
+            out.append({"action": "router-acl-remove-rule", "cat": "acl", "options": {"target_router": r, "position": pos}})
+    for f in meta["firewalls"]:
+        k = 0
+        for pn in ("internal", "dmz", "external"):
+            for di in ("inbound", "outbound"):
+                for pos in (0, 1):
+                    out.append(rule(pos, variants[k % len(variants)], _a="firewall-acl-add-rule",
+                                    target_firewall_nodename=f, firewall_port_name=pn, firewall_port_direction=di))
+                    k += 1
+                out.append({"action": "firewall-acl-remove-rule", "cat": "acl",
+                            "options": {"target_firewall_nodename": f, "firewall_port_name": pn,
+                                        "firewall_port_direction": di, "position": 0}})
+    return out
+
+
+def apply_extras(cfg: Dict, meta: Optional[Dict], extras: Optional[List[Dict]]) -> None:
+    """Append case['extra_actions'] to the proxy agent's action_map and to meta['actions'] (same indices)."""
+    if not extras or meta is None:
+        return
+    blue = next(a for a in cfg["agents"] if a.get("type") == "proxy-agent")
+    amap = blue["action_space"]["action_map"]
+    n = len(meta["actions"])
+    for k, e in enumerate(extras):
+        amap[n + k] = {"action": e["action"], "options": dict(e["options"])}
+    meta["actions"] = list(meta["actions"]) + [dict(e) for e in extras]
+
+
 @st.composite
-def steered_spec(draw, **kw):
+def acl_phrase(draw, spec: Dict, extras: List[Dict]) -> List[List]:
+    """A run of the extra ACL actions (rules with every address/mask combination per side, removals) with the
+    occasional idle step in between."""
+    if not extras:
+        return []
+    _, meta = gen_scenario.build(spec)
+    base = len(meta["actions"])
+    ops: List[List] = []
+    for k in draw(st.lists(st.integers(0, len(extras) - 1), min_size=3, max_size=8)):
+        ops.append(["step", base + k])
+        if draw(st.integers(0, 3)) == 0:
+            ops.append(["step", 0])
+    return ops
+
+
+@st.composite
+def steered_spec(draw, steer: Optional[str] = None, **kw):
     spec = draw(gen_scenario.spec_strategy(**kw))
-    steer = draw(st.sampled_from(["gated_off", "nic_toggle", "attack", "sizes", "none", "acl", "gated_off", "nic_toggle", "attack", "sizes", "none"]))
+    if steer is None:
+        steer = draw(st.sampled_from(list(STEERS)))
     o = spec["obs"]
     if steer in ("attack", "nic_toggle"):
         _setup_attack(spec, draw)
@@ -204,8 +281,10 @@ def steered_spec(draw, **kw):
 
 
 @st.composite
-def case_strategy(draw, max_ops: int = 30, **kw):
-    spec = draw(steered_spec(**kw))
+def case_strategy(draw, max_ops: int = 30, steer: Optional[str] = None, **kw):
+    """steer=None draws the steer; the check passes each steer explicitly with a fixed quota, because with ~30 examples
+    per worker Hypothesis' sampled_from is far from uniform (measured: the `acl` steer got 2 of 256 cases at one seed)."""
+    spec = draw(steered_spec(steer=steer, **kw))
     if spec["steer"] == "gated_off":
         head = draw(gated_off_phrase(spec, spec["gated_host"]))
         tail = draw(ops_strategy(max(max_ops - len(head), 1), min_ops=0))
@@ -214,6 +293,15 @@ def case_strategy(draw, max_ops: int = 30, **kw):
         head = draw(nic_toggle_phrase(spec))
         tail = draw(ops_strategy(max(max_ops - len(head), 1), min_ops=0))
         return {"src": "gen", "spec": spec, "ops": head + tail}
+    if spec["steer"] == "acl":
+        _, meta = gen_scenario.build(spec)
+        extras = acl_extra_actions(meta)
+        head = draw(acl_phrase(spec, extras))
+        tail = draw(ops_strategy(max(max_ops - len(head), 1), min_ops=0 if head else 1))
+        case = {"src": "gen", "spec": spec, "ops": head + tail}
+        if extras:
+            case["extra_actions"] = extras
+        return case
     if spec["steer"] == "sizes":
         head = draw(sessions_phrase(spec))
         tail = draw(ops_strategy(max(max_ops - len(head), 1), min_ops=0 if head else 1))
